@@ -284,6 +284,7 @@ func (s *Store) Commit() (root []byte, err lib.ErrorI) {
 	}
 	// extract the internal metrics from the pebble batch
 	size, count := len(s.writer.Repr()), s.writer.Count()
+	verifPoint("store.commit.beforeApply", int(nextVersion))
 	// finally commit the entire Transaction to the actual DB under the proper version (height) number
 	if err := s.db.Apply(s.writer, pebble.NoSync); err != nil {
 		commitErr := ErrCommitDB(err)
